@@ -36,8 +36,8 @@ Extensions (audit round):
    < len target, strand in {0, 1} and 0 without reverse complement): a field that is not a function of
    (query, targets) - e.g. never written scratch - usually leaves these domains even when two calls
    happen to see the same garbage.
- - a ZeroDivisionError in a call whose queries all succeed alone is a violation (the result of a
-   query then depends on the co-processed ones); before, any ZeroDivisionError ended the case silently.
+ - an exception in a call whose queries all succeed alone is a violation (the result of a query then
+   depends on the co-processed ones); before, a ZeroDivisionError anywhere ended the case silently.
  - (A) also with annotate_seqlets' own defaults (no keyword at all: n_nearest=1, n_jobs=-1, hashing),
    seqlet tables with additional columns (float / string) and a non-default row index.
 
@@ -255,9 +255,9 @@ def check_batch(case):
         return []
     try:
         R, out = _run([Qs[i] for i in order], Ts, _params(case), case['sched'])
-    except ZeroDivisionError as e:
-        return ['[schedule-dependent-exception] ZeroDivisionError (%s) for the list %s under %s although every query of it is '
-                'processed alone without error' % (e, order, case['sched'])]
+    except Exception as e:
+        return ['[schedule-dependent-exception] %s (%s) for the list %s under %s although every query of it is '
+                'processed alone without error' % (type(e).__name__, e, order, case['sched'])]
     if R.shape != (5, len(order), len(Ts)):
         return out + ['[shape] result shape %s for %d queries x %d targets' % (R.shape, len(order), len(Ts))]
     tl = [T.shape[1] for T in Ts]
@@ -324,9 +324,9 @@ def check_history(case):
             continue                     # the companion query cannot be processed at all
         try:
             R, o = _run(lst, Ts, _params(case), {'n_jobs': 1})
-        except ZeroDivisionError as e:
-            out.append('[schedule-dependent-exception] ZeroDivisionError (%s) for query %d (len %d) %s although it is processed '
-                       'alone without error' % (e, i, q.shape[1], name))
+        except Exception as e:
+            out.append('[schedule-dependent-exception] %s (%s) for query %d (len %d) %s although it is processed '
+                       'alone without error' % (type(e).__name__, e, i, q.shape[1], name))
             continue
         out += o
         for ps in pos:
@@ -359,9 +359,9 @@ def check_nearest(case):
         return []
     try:
         N, out = _run([Qs[i] for i in order], Ts, _params(case), case['sched'], n_nearest=k)
-    except ZeroDivisionError as e:
-        return ['[schedule-dependent-exception] ZeroDivisionError (%s) for the list %s with n_nearest=%d under %s although every '
-                'query of it is processed alone without error' % (e, order, k, case['sched'])]
+    except Exception as e:
+        return ['[schedule-dependent-exception] %s (%s) for the list %s with n_nearest=%d under %s although every '
+                'query of it is processed alone without error' % (type(e).__name__, e, order, k, case['sched'])]
     if N.shape != (6, len(order), k):
         return out + ['[n-nearest-mismatch] result shape %s for n_nearest=%d, %d queries' % (N.shape, k, len(order))]
     tl = numpy.array([T.shape[1] for T in Ts])
@@ -400,12 +400,13 @@ def _annot_inputs(case):
 
 
 def _seqlet_table(rows, case):
-    """the seqlet DataFrame; 'extra_cols': further (float, string) columns after the three used ones;
+    """the seqlet DataFrame; 'extra_cols': further columns after the three used ones ('float': one float column, else float + string);
     'reindex': a descending, non-contiguous row index as left behind by filtering / sorting"""
     df = pandas.DataFrame([list(r) for r in rows], columns=['example_idx', 'start', 'end'])
     if case.get('extra_cols'):
         df['attribution'] = [0.5 + r[1] / 7.0 for r in rows]
-        df['name'] = ['s%d' % r[2] for r in rows]
+        if case['extra_cols'] != 'float':
+            df['name'] = ['s%d' % r[2] for r in rows]
     if case.get('reindex'):
         df.index = [3 * j + 5 for j in range(len(rows))][::-1]
     return df
@@ -444,9 +445,9 @@ def check_annotate(case):
                 idxs, pvals = annotate_seqlets(X, df, motifs)
             else:
                 idxs, pvals = annotate_seqlets(X, df, motifs, n_nearest=k, n_jobs=case['n_jobs'], **kw)
-        except ZeroDivisionError as e:
-            return ['[schedule-dependent-exception] ZeroDivisionError (%s) for the seqlets %s although each of them is annotated '
-                    'alone without error' % (e, order)]
+        except Exception as e:
+            return ['[schedule-dependent-exception] %s (%s) for the seqlets %s (table with columns %s, index %s) although each of '
+                    'them is annotated alone without error' % (type(e).__name__, e, order, list(df.columns), list(df.index))]
         if numba.get_num_threads() != before:
             out.append('[num-threads-not-restored] numba.get_num_threads() changed across annotate_seqlets')
     finally:
@@ -505,39 +506,92 @@ def _config(rng, thorough, idx):
     tlens = [rng.randint(1, 14) for _ in range(nt)]
     pool = rng.choice([0, 3]) if grid != 1 else rng.choice([0, 2, 3])
     alpha = rng.choice([0.2, 0.5, 1.0])
-    return {'Q': [{'seed': rng.randrange(10 ** 9), 'lens': qlens, 'grid': grid, 'alpha': alpha, 'pool': pool}],
-            'T': [{'seed': rng.randrange(10 ** 9), 'lens': tlens, 'grid': grid, 'alpha': alpha, 'pool': pool}],
-            'n_score_bins': rng.choice([20, 50, 100]), 'rc': rng.random() < 0.5, 'n_target_bins': rng.choice([None, None, 100])}
+    cfg = {'Q': [{'seed': rng.randrange(10 ** 9), 'lens': qlens, 'grid': grid, 'alpha': alpha, 'pool': pool}],
+           'T': [{'seed': rng.randrange(10 ** 9), 'lens': tlens, 'grid': grid, 'alpha': alpha, 'pool': pool}],
+           'n_score_bins': rng.choice([20, 50, 100]), 'rc': rng.random() < 0.5, 'n_target_bins': rng.choice([None, None, 100])}
+    # every other configuration leaves the defaults of the remaining size parameters: odd n_score_bins, few / many /
+    # a prime number of median bins, n_cache above the default or at its lower limit (offset <= n_score_bins for PWM columns)
+    if idx % 2 == 0:
+        cfg['n_score_bins'] = rng.choice([7, 33, 64, 99, 100])
+        cfg['n_median_bins'] = rng.choice([2, 50, 317, 2000])
+        cfg['n_cache'] = rng.choice([cfg['n_score_bins'], 137, 250])
+    return cfg
+
+
+def _config_wide(rng, idx):
+    """many short targets (with exact duplicates): long p-value rows for the n_nearest selection"""
+    nt = rng.randint(20, 40)
+    grid = [4, 0, 1][idx % 3]
+    tl = [rng.randint(2, 6) for _ in range(nt)]
+    return {'Q': [{'seed': rng.randrange(10 ** 9), 'lens': [rng.randint(2, 9), 1, rng.randint(10, 16)], 'grid': grid, 'alpha': 0.5, 'pool': 0}],
+            'T': [{'seed': rng.randrange(10 ** 9), 'lens': tl, 'grid': grid, 'alpha': 0.5, 'pool': 0 if grid else 6}, 'ACGT', 'ACGT', 'GGA'],
+            'n_score_bins': rng.choice([50, 100]), 'rc': bool(idx % 2), 'n_target_bins': None}
 
 
 FIXED = [
     {'Q': ['A', 'ACGTACGTAC', 'CC', 'A', 'GATTACA'], 'T': ['C', 'A', 'G', 'T', 'CC'], 'n_score_bins': 100, 'rc': False, 'n_target_bins': None},
     {'Q': ['AA', 'C', 'ACGTTGCATG', 'TT'], 'T': ['CCC', 'AG', 'TTTT', 'ACGTA'], 'n_score_bins': 100, 'rc': True, 'n_target_bins': None},
+    # a single target; two targets; exact duplicates among the targets (certain p-value ties), one of them its own reverse complement
+    {'Q': ['AC', 'G', 'ACGTACGGT', 'TTG'], 'T': ['ACGTA'], 'n_score_bins': 100, 'rc': False, 'n_target_bins': None},
+    {'Q': ['GATTACA', 'T', 'CA'], 'T': ['CAG', 'TTGCA'], 'n_score_bins': 100, 'rc': True, 'n_target_bins': None},
+    {'Q': ['ACG', 'T', 'ACGTTGCATGCA', 'GT'], 'T': ['ACGT', 'TTA', 'ACGT', 'TTA', 'ACGT', 'CCGTA'], 'n_score_bins': 100, 'rc': True,
+     'n_target_bins': None, 'n_median_bins': 317, 'n_cache': 100},
 ]
 
 
-def _batch_section(rep, cfg, ci, rng, thorough):
+def _batch_section(rep, cfg, ci, rng, thorough, light=False):
     Qs_, Ts_ = mats(cfg['Q']), mats(cfg['T'])
     if degenerate(Qs_, Ts_, cfg['rc']) or degenerate(mats(POISON), Ts_, cfg['rc']):
         return False                     # tomtom raises ZeroDivisionError on such sets: nothing to compare
     nq = len(Qs_)
+    nt = len(Ts_)
     allq = list(range(nq))
-    n_var = 20 if thorough else 8
+    n_var = (20 if thorough else 8) if not light else 3
+    ext = dict(cfg, Q=list(cfg['Q']) + POISON)          # the queries of the configuration + 3 unrelated ones (indices nq..nq+2)
 
-    def go(order, sched, section, sample=False):
-        case = dict(cfg, kind='batch', order=list(order), sched=sched)
-        _emit(rep, case, check_batch(case), section, ('b', ci, tuple(order), json.dumps(sched, sort_keys=True)), sample)
+    def go(order, sched, section, sample=False, base=cfg):
+        case = dict(base, kind='batch', order=list(order), sched=sched)
+        _emit(rep, case, check_batch(case), section, ('b', ci, tuple(order), json.dumps(sched, sort_keys=True), base is ext), sample)
+
+    def near(k, sched, order=None, base=cfg, section='n_nearest', sample=False):
+        case = dict(base, kind='nearest', n_nearest=k, sched=sched)
+        if order is not None:
+            case['order'] = list(order)
+        _emit(rep, case, check_nearest(case), section, ('n', ci, k, json.dumps(sched, sort_keys=True), tuple(order or ()), base is ext), sample)
+
+    def long_list():
+        return [rng.randrange(nq + 3) for _ in range(rng.randint(24, 64))]
 
     for i in allq:
         case = dict(cfg, kind='history', iq=i)
         _emit(rep, case, check_history(case), 'history-1-thread', ('h', ci, i))
-    for k in range(1, MAX_THREADS + 1):
+    # ambient thread mask m (not the default) while n_jobs=k is passed: the mask must be m again afterwards
+    for m, k in ((5, 3), (2, 7), (3, 3), (MAX_THREADS, 1), (1, MAX_THREADS)):
+        if max(m, k) <= MAX_THREADS and (m, k) != (MAX_THREADS, MAX_THREADS):
+            go(allq, {'mask': m, 'n_jobs': k}, 'threads-ambient-mask', sample=(ci == 0 and m == 5))
+    near(min(2, nt), {'mask': min(3, MAX_THREADS), 'n_jobs': 2}, section='threads-ambient-mask')
+    for k in (range(1, MAX_THREADS + 1) if not light else (1, 2, 5, MAX_THREADS)):
         go(allq, {'n_jobs': k}, 'threads', sample=(k == 3 and ci < 2))
         if thorough or k in (1, 2, 7, MAX_THREADS):
             go(allq, {'mask': k}, 'threads')
     for c in (1, 2, 3):
         go(allq, {'n_jobs': rng.choice([2, 3, 4]), 'chunk': c}, 'chunksize')
-    if nq <= (5 if thorough else 4):
+    # long lists: every thread handles several queries while the others are running
+    for v in range((6 if thorough else 4) if not light else 2):
+        sched = {'n_jobs': [MAX_THREADS, 2, 4, 3, 8, 5][v % 6] if v else MAX_THREADS}
+        sched['n_jobs'] = min(sched['n_jobs'], MAX_THREADS)
+        c = rng.choice([0, 1, 2, 5, 7])
+        if c:
+            sched['chunk'] = c
+        if v % 2:
+            sched['form'] = 'torch'
+        go(long_list(), sched, 'long-list', base=ext, sample=(ci == 1 and v == 1))
+    near(rng.randint(1, nt), {'n_jobs': MAX_THREADS}, order=long_list(), base=ext, section='n_nearest-long-list')
+    near(nt, {'n_jobs': rng.choice([2, 3, 6]), 'chunk': rng.choice([1, 2]), 'form': 'torch'}, order=long_list(), base=ext,
+         section='n_nearest-long-list')
+    go(allq, {'n_jobs': 2, 'form': 'torch'}, 'torch-views')
+    go(allq[::-1], {'n_jobs': 1, 'form': 'torch'}, 'torch-views')
+    if nq <= (5 if thorough else 4) and not light:
         for m in range(1, nq + 1):
             for sub in itertools.permutations(allq, m):
                 go(sub, {'n_jobs': 1}, 'ordered-sublists-1-thread')
@@ -552,11 +606,14 @@ def _batch_section(rep, cfg, ci, rng, thorough):
         if rng.random() < 0.3:
             dup = [dup[0]] * rng.randint(2, 5)
         go(dup, {'n_jobs': rng.choice([1, 1, 2, 5])}, 'duplication')
-    nt = len(mats(cfg['T']))
-    for k in range(1, nt + 1):
+    ks = range(1, nt + 1) if nt <= 8 else sorted({1, 2, 3, nt // 2, nt - 1, nt, rng.randint(4, nt - 2), rng.randint(4, nt - 2)})
+    for k in ks:
         for th in ([1, 3, MAX_THREADS] if thorough else [1 if k % 2 else 3]):
-            case = dict(cfg, kind='nearest', n_nearest=k, sched={'n_jobs': th})
-            _emit(rep, case, check_nearest(case), 'n_nearest', ('n', ci, k, th), sample=(k == 2 and ci == 0))
+            near(k, {'n_jobs': th}, sample=(k == 2 and ci == 0))
+    # n_nearest for re-ordered / duplicated lists (one thread: the scratch slot that is argsorted is shared)
+    for _ in range(3 if thorough else 2):
+        order = [rng.choice(allq) for _ in range(rng.randint(2, 2 * nq))]
+        near(rng.randint(1, nt), {'n_jobs': rng.choice([1, 1, 2, MAX_THREADS])}, order=order, section='n_nearest-reordered')
     return True
 
 
@@ -585,7 +642,19 @@ def _annot_section(rep, ai, rng, thorough):
         else:
             order = allq[::-1]
         case = dict(base, order=order, n_nearest=rng.randint(1, 5), n_jobs=rng.choice([1, 1, 2, 4, MAX_THREADS]))
+        if v % 4 == 1:
+            case['extra_cols'] = 'float' if v % 8 == 1 else 'mixed'
+        if v % 4 in (2, 1) and v > 3:
+            case['reindex'] = True
         _emit(rep, case, check_annotate(case), 'annotate_seqlets', ('a', ai, v), sample=(v == 1 and ai == 0))
+    # annotate_seqlets(X, seqlets, motifs) with no keyword at all (n_nearest, n_jobs, hashing, strands: the defaults);
+    # only for continuous motifs (every target column is its own hash bucket)
+    if grid == 0:
+        dbase = dict(base, rc=True, n_target_bins=100, n_score_bins=100, defaults=True)
+        if not degenerate([X_[e, :, a:b].numpy() for e, a, b in seq], [m.numpy() for m in motifs_.values()], True):
+            for v, order in enumerate([allq, allq[::-1], [rng.choice(allq) for _ in range(20)], rng.sample(allq, 3)]):
+                case = dict(dbase, order=order, n_nearest=1, n_jobs=-1, extra_cols=['float', None, 'mixed', None][v], reindex=(v >= 2))
+                _emit(rep, case, check_annotate(case), 'annotate_seqlets-defaults', ('ad', ai, v))
     return 1
 
 
@@ -599,7 +668,10 @@ def run(rep):
     for cfg in FIXED:
         _batch_section(rep, cfg, ci, rng, thorough)
         ci += 1
-    n_cfg = 10 ** 9 if thorough else 10 + len(FIXED)
+    for w in range(4 if thorough else 2):
+        if _batch_section(rep, _config_wide(rng, w), ci, rng, thorough, light=True):
+            ci += 1
+    n_cfg = 10 ** 9 if thorough else 10 + ci
     while ci < n_cfg:
         if rep.left() < (30 if thorough else 10):
             rep.note('time budget reached after %d configurations' % ci)
